@@ -2,6 +2,9 @@ import SkgVerif.Model.Basic
 import SkgVerif.Model.Grouping
 import SkgVerif.Model.Estimators
 import SkgVerif.Model.Binning
+import SkgVerif.Model.SumModels
+import SkgVerif.Gen.ModelsExec
+import SkgVerif.Gen.STModelsExec
 /-!
 # Line protocol handlers (one request line → one response line)
 
@@ -113,6 +116,32 @@ def handleC02 : List String → Option String
       let q ← parseRat q.trimAscii.toString
       let ds ← parseRats d
       some s!"ok|{fmtRat (quantile ds q)}"
+  | _ => none
+
+
+def evalModelF (name : String) (a : List Float) : Option Float :=
+  match name, a with
+  | "spherical", [h, r, c0, b] => some (Gen.sphericalF h r c0 b)
+  | "exponential", [h, r, c0, b] => some (Gen.exponentialF h r c0 b)
+  | "gaussian", [h, r, c0, b] => some (Gen.gaussianF h r c0 b)
+  | "cubic", [h, r, c0, b] => some (Gen.cubicF h r c0 b)
+  | "stable", [h, r, c0, s, b] => some (Gen.stableF h r c0 s b)
+  | _, _ => none
+
+def handleC03 : List String → Option String
+  | ["eval", name, a] => do
+      let a ← parseFloats a
+      let v ← evalModelF name.trimAscii.toString a
+      some s!"ok|{fmtFloat v}"
+  | ["evalq", name, a] => do
+      let a ← parseRats a
+      match name.trimAscii.toString, a with
+      | "spherical", [h, r, c0, b] => some s!"ok|{fmtRat (Gen.sphericalQ h r c0 b)}"
+      | "cubic", [h, r, c0, b] => some s!"ok|{fmtRat (Gen.cubicQ h r c0 b)}"
+      | _, _ => none
+  | ["slices", ks] => do
+      let ks ← parseNats ks
+      some s!"ok|{fmtList (fun (p : Nat × Nat) => s!"{p.1},{p.2}") (argSlices ks)}"
   | _ => none
 
 end Skg
